@@ -24,13 +24,13 @@ theorem Core8.refl (a : Sys) : Core8 a a := ⟨rfl, rfl, rfl, rfl, rfl, rfl, rfl
 
 theorem ClQuiet.of_eq {c c' : Cluster} (h : c' = c) : ClQuiet c c' := by subst h; exact ClQuiet.refl _
 theorem TaskMono.of_eq {a b : List TaskRec} (h : b = a) : TaskMono a b := by subst h; exact TaskMono.refl _
-theorem ObsMono.of_eq {a b : List Obs} (h : b = a) : ObsMono a b := by subst h; exact fun _ h => h
+theorem ObsMonoS.of_eq {a b : List Obs} (h : b = a) : ObsMonoS a b := by subst h; exact fun _ h => h
 
 theorem PW.core {a b : Sys} (h : PW a) (e : Core8 a b) : PW b :=
   ⟨by rw [e.procs]; exact h.nodup, by rw [e.procs, e.nextPid]; exact h.lt⟩
 
 theorem CI.core {a b : Sys} {U} (h : CI a U) (e : Core8 a b) : CI b U :=
-  h.frame (ClQuiet.of_eq e.cl) (TaskMono.of_eq e.tasks) (ObsMono.of_eq e.obs) (fun _ _ => by rw [e.procs])
+  h.frame (ClQuiet.of_eq e.cl) (TaskMono.of_eq e.tasks) (ObsMonoS.of_eq e.obs) (fun _ _ => by rw [e.procs])
 
 theorem DG.core {a b : Sys} (h : DG a) (e : Core8 a b) : DG b :=
   h.frame (by rw [e.cl]) (by rw [e.cl]) e.starts e.active (fun _ _ => by rw [e.procs])
@@ -121,7 +121,7 @@ theorem EG.updProc_neutral {s1 : Sys} (h : EG s1) (hpw : PW s1) {p : Proc} (hp :
 /-! ### appending processes the clause group does not talk about -/
 
 theorem CI.addProcs {s s1 : Sys} {U} (h : CI s U) (hcl : ClQuiet s.cl s1.cl)
-    (ht : TaskMono s.tasks s1.tasks) (ho : ObsMono s.obs s1.obs) (new : List Proc)
+    (ht : TaskMono s.tasks s1.tasks) (ho : ObsMonoS s.obs s1.obs) (new : List Proc)
     (hp : s1.procs = s.procs ++ new) (hn : ∀ q ∈ new, q.k.isAT = false ∧ q.k.isPI = false) : CI s1 U := by
   refine h.frame hcl ht ho ?_
   intro q hq
@@ -179,7 +179,7 @@ theorem Pres.frame {s s1 : Sys} (hcl : ClQuiet s.cl s1.cl) (ht : TaskMono s.task
     (hs : s1.starts = s.starts) (ha : s1.active = s.active) (hd : s1.admitted = s.admitted) :
     Pres s s1 :=
   ⟨by rw [hp]; exact List.prefix_refl _, fun h => ⟨by rw [hp]; exact h.nodup, by rw [hp, hn]; exact h.lt⟩,
-   fun _ _ h => h.frame hcl ht (ObsMono.of_eq ho) (fun _ _ => by rw [hp]),
+   fun _ _ h => h.frame hcl ht (ObsMonoS.of_eq ho) (fun _ _ => by rw [hp]),
    fun _ h => h.frame hcl.running hcl.finished hs ha (fun _ _ => by rw [hp])
      (fun _ _ hq => by rw [hp]; exact hq),
    fun _ h => h.frame ho hd (fun _ _ => by rw [hp])⟩
